@@ -483,6 +483,43 @@ reorder records while indices are positional, the refinement is stated per
 step, from the view of the actual state: `poolEquiv` = slot by slot the same
 default record and the same records up to a permutation. -/
 
+/-! the record-list functions `specOp` is made of (defined in
+`Lemmas/PArrayRefine.lean` / `Lemmas/PArraySpecOps.lean`), spelled out -/
+
+theorem absPA_def (pa : PA) : absPA pa = ⟨defaultParticle pa, particles pa⟩ := rfl
+
+theorem poolEquiv_def (A B : List RA) :
+    poolEquiv A B ↔ List.Forall₂ (fun a b => a.dflt = b.dflt ∧ a.recs.Perm b.recs) A B := Iff.rfl
+
+/-- `remove_particles(idx)`: the records whose slot is not listed, in order -/
+theorem specRemove_def (idx : List Nat) (a : RA) :
+    specRemove idx a = ⟨a.dflt, gather
+      ((List.range a.recs.length).filter (fun i => !idx.contains i)) a.recs⟩ := rfl
+
+theorem specRemoveTagged_def (t : Int) (a : RA) :
+    specRemoveTagged t a =
+      { a with recs := a.recs.filter (fun r => !(lookupD r "tag" [] == [t])) } := rfl
+
+theorem specExtend_def (k : Nat) (a : RA) :
+    specExtend k a = { a with recs := a.recs ++ List.replicate k a.dflt } := rfl
+
+/-- `align_particles`: Local records first -/
+theorem specAlign_def (a : RA) :
+    specAlign a = ⟨a.dflt, a.recs.filter (fun r => lookupD r "tag" [] == [localTag]) ++
+      a.recs.filter (fun r => !(lookupD r "tag" [] == [localTag]))⟩ := rfl
+
+theorem specExtractInto_def (names : List String) (idx : List Nat) (src dst : RA) :
+    specExtractInto names idx src dst = ⟨dst.dflt, dst.recs ++
+      idx.map (fun i => copyFields names (src.recs.getD i []) dst.dflt)⟩ := rfl
+
+theorem specAddParticles_def (given : List (String × List Int)) (a : RA) :
+    specAddParticles given a = { a with recs := a.recs ++ specNewRecs a.dflt given } := rfl
+
+theorem specRemoveProperty_def (nm : String) (a : RA) :
+    specRemoveProperty nm a =
+      ⟨a.dflt.filter (fun f => !(f.1 == nm)), a.recs.map (fun r => r.filter (fun f => !(f.1 == nm)))⟩ :=
+  rfl
+
 /-- **the record-list model**: one operation on a pool of record lists -/
 def specOp (A : List RA) : Op → List RA
   | .addParticles s _ given => modifySlot A s (specAddParticles given)
